@@ -140,6 +140,41 @@ class AbsList:
     def append(self, x):
         self.tail.append(x)
 
+    def __delitem__(self, i):
+        """del lst[i]: the abstract part becomes elem'(j) = elem(j) for j < i, elem(j + 1) for j >= i (one shorter);
+        an index into the concrete tail removes that item"""
+        if isinstance(i, slice):
+            raise Undecided("del of a slice of an abstract list")
+        c = cur()
+        n = toint(self._pyvc_len())
+        it = _t(i)
+        if c.branch(it < 0):
+            it = _simp(it + n)
+        if c.branch(z3.Or(it < 0, it >= n)):
+            raise IndexError("list assignment index out of range")
+        nt = self._nt()
+        if self.tail and not c.branch(it < nt):
+            k = _simp(it - nt)
+            kv = _cval(k)
+            if kv is None:
+                for j in range(len(self.tail)):
+                    if c.branch(k == j):
+                        kv = j
+                        break
+                else:
+                    raise core.PathEnd("infeasible tail index")
+            del self.tail[kv]
+            return
+        old, base = self.elem, _t(self.base)
+        cut = _simp(it + base)          # absolute index of the removed element
+
+        def shifted(j, old=old, cut=cut):
+            jt = _t(j)
+            return old(SInt(_simp(z3.If(jt >= cut, jt + 1, jt))))
+        self.elem = shifted
+        self.name = "%s|del@%s" % (self.name, cut.sexpr())      # a different element function: never `equals` the old one
+        self.n = SInt(_simp(nt - 1))
+
     def __iter__(self):
         n = _cval(self._nt())
         if n is None:
@@ -161,9 +196,6 @@ class AbsList:
 
     def _pyvc_as_list(self):
         return AbsList(self.name, self.n, self.elem, self.tail, self.params, self.base)
-
-    def __delitem__(self, i):
-        raise Undecided("del on an abstract list")
 
     def equals(self, o):
         """same element function (by name) and same length; tails compared with the other side's
